@@ -26,6 +26,7 @@ type knownFinding struct {
 	Property    string `json:"property"`
 	Function    string `json:"function"`
 	Obligation  string `json:"obligation"`
+	Labels      []string `json:"labels,omitempty"` // when set: only obligations carrying one of these clause labels are this finding
 	Status      string `json:"status"` // known | fixed
 	Commit      string `json:"commit,omitempty"`
 	Witness     string `json:"witness,omitempty"`
@@ -250,6 +251,17 @@ func runCheck(prop, tier string, seed int, t0 time.Time) int {
 		matched := false
 		for _, kf := range kfs {
 			if kf.Status == "known" && kf.Property == prop && strings.HasPrefix(o.Name, kf.Obligation) && strings.HasSuffix(o.Fn, kf.Function) {
+				if len(kf.Labels) > 0 {
+					ok := false
+					for _, l := range kf.Labels {
+						if l == o.Label {
+							ok = true
+						}
+					}
+					if !ok {
+						continue // another clause at the same anchor: a different violation, reported
+					}
+				}
 				matched = true
 				fmt.Printf("KNOWN-FINDING: property=%s %s\n", prop, kf.Description)
 				knownSeen = append(knownSeen, kf.Obligation+" in "+kf.Function)
